@@ -88,7 +88,44 @@ def from_term(t):
         return tuple(from_term(x) for x in t['xs'])
     if k == 'dict':
         return {_hashable(from_term(a)): from_term(b) for a, b in t['kv']}
+    # instances of subclasses of the JSON types
+    if k == 'intS':
+        return IntS(int(t['n']))
+    if k == 'floatS':
+        return FloatS(float(t['r']))
+    if k == 'strS':
+        return StrS(t['s'])
+    if k == 'listS':
+        return ListS(from_term(x) for x in t['xs'])
+    if k == 'tupleS':
+        return TupleS(from_term(x) for x in t['xs'])
+    if k == 'dictS':
+        return DictS((_hashable(from_term(a)), from_term(b)) for a, b in t['kv'])
     raise ValueError(t)
+
+
+class IntS(int):
+    pass
+
+
+class FloatS(float):
+    pass
+
+
+class StrS(str):
+    pass
+
+
+class ListS(list):
+    pass
+
+
+class TupleS(tuple):
+    pass
+
+
+class DictS(dict):
+    pass
 
 
 def _hashable(v):
